@@ -78,7 +78,7 @@ class CustomState(BaseState):
         elif self.expansion_level == ExpansionLevel.Vector:
             assert isinstance(self.state, jnp.ndarray)
             assert self.state.shape == (self.dimensions, 1)
-            self.state = jnp.dot(self.state, self.state.T)
+            self.state = jnp.dot(self.state, jnp.conj(self.state.T))
             self.expansion_level = ExpansionLevel.Matrix
 
     def contract(
